@@ -47,7 +47,7 @@ PROPS = {
         "lean_targets": ["Proofs.GenWordOps", "Proofs.GenTables"],
     },
     "C04": {
-        "extra_modules": ["C04b", "CGen"],
+        "extra_modules": ["C04b", "CGen", "CGenK"],
         "gens": [{"name": "mix", "quick": 900, "thorough": 4000}, {"name": "C04", "quick": 600, "thorough": 6000},
                  {"name": "divrec", "harness": "kernharness", "quick": 500, "thorough": 3000}],
         "needs": ["apiharness", "kernharness"],
@@ -108,6 +108,7 @@ PROPS = {
         "lean_targets": ["Proofs.GenWordOps", "Proofs.GenTables"],
     },
     "C09": {
+        "extra_modules": ["CGenK"],
         "known_ok": ["fma-product-exponent-out-of-range", "float64-double-rounding-near-tie", "float64-accuracy-near-representable", "float32-double-rounding-near-tie", "float32-accuracy-near-representable"],
         "gens": [{"name": "mix", "quick": 900, "thorough": 4000}, {"name": "C09", "quick": 250, "thorough": 1500}, {"name": "setters", "quick": 600, "thorough": 4000}, {"name": "C20", "quick": 400, "thorough": 3000},
                  {"name": "C17", "quick": 800, "thorough": 4000}, {"name": "C05", "quick": 400, "thorough": 2000}, {"name": "C12", "quick": 500, "thorough": 3000},
